@@ -30,6 +30,15 @@ class HarnessError(Exception):
     """The machinery itself misbehaved (never reported as a violation, never as a pass)."""
 
 
+class WorkerDied(HarnessError):
+    """A forked batch child died without delivering a result (signal / hard exit)."""
+
+    def __init__(self, job, how):
+        HarnessError.__init__(self, "worker for runs [%d, %d) died (%s) without a result; see stderr" % (job[1], job[2], how))
+        self.job = job
+        self.how = how
+
+
 class Violation(Exception):
     """A property does not hold on this run.
 
@@ -243,7 +252,7 @@ def run_batches(jobs, workers, batch_timeout):
                 data = b"".join(chunks)
                 if not data:
                     how = "signal %d" % os.WTERMSIG(status) if os.WIFSIGNALED(status) else "exit %d" % os.WEXITSTATUS(status)
-                    raise HarnessError("worker for runs [%d, %d) died (%s) without a result; see stderr" % (job[1], job[2], how))
+                    raise WorkerDied(job, how)
                 results.append(pickle.loads(data))
             now = time.time()
             for r, (pid, job, _c, t0) in list(running.items()):
@@ -273,7 +282,25 @@ def farm(run_fn, base_seed, n_runs, opts=None, workers=None, batch=None):
         batch = max(1, min(200, n_runs // (workers * 8) or 1))
     _WORKER_FN = run_fn
     jobs = [(base_seed, lo, min(lo + batch, n_runs), opts) for lo in range(0, n_runs, batch)]
-    results = run_batches(jobs, workers, opts.get("batch_timeout", 900))
+    try:
+        results = run_batches(jobs, workers, opts.get("batch_timeout", 900))
+    except WorkerDied as dead:
+        # A run that kills its process (SIGSEGV / SIGBUS / hard exit) is a violation of whatever was being
+        # checked, provided it can be pinned to one run that dies on its own in a fresh child.
+        _, lo, hi, _ = dead.job
+        for idx in range(lo, hi):
+            try:
+                run_batches([(base_seed, idx, idx + 1, opts)], 1, opts.get("batch_timeout", 900))
+            except WorkerDied as again:
+                vj = {"property": opts.get("prop", "?"), "vclass": "process-killed", "where": "run",
+                      "signature": "process-killed@run", "batch_lo": idx,
+                      "message": "run %d killed its process (%s)" % (idx, again.how),
+                      "extra": {"case": {"rerun": {"verif_seed": base_seed, "tier": opts.get("tier", "quick"),
+                                                   "lo": idx, "hi": idx, "why": "the run kills the interpreter"}}}}
+                total = Stats()
+                total.count("violating_runs")
+                return total, [(idx, vj)], "process-killed"
+        raise
     results.sort(key=lambda r: r["lo"])
     total = Stats()
     violations = []
@@ -292,7 +319,10 @@ def rerun_range(run_fn, base_seed, lo, hi, opts):
     """Re-execute runs [lo, hi] in ONE fresh child, in order; return the violations found."""
     global _WORKER_FN
     _WORKER_FN = run_fn
-    res = run_batches([(base_seed, lo, hi + 1, dict(opts or {}))], 1, 900)[0]
+    try:
+        res = run_batches([(base_seed, lo, hi + 1, dict(opts or {}))], 1, 900)[0]
+    except WorkerDied as dead:
+        return [(hi, {"signature": "process-killed@run", "message": "runs %d..%d killed the process (%s)" % (lo, hi, dead.how)})]
     if "error" in res:
         raise HarnessError("worker raised:\n" + res["error"])
     return res["violations"]
